@@ -240,6 +240,26 @@ func C16(x *Ctx) []Violation {
 	} else if !bytes.Equal(canon, out) {
 		bad("noop-layout-only", "gofmt applied to the -fmt noop output differs from the default output: %s", firstDiff(out, canon))
 	}
+	// the same holds for a file: what -out held before (here: the same tokens in the noop layout, or with CRLF
+	// line ends) has no influence on the layout moq writes
+	if n := run("noop"); n.Exit == 0 && len(vs) == 0 && x.Case.Hash()[0]%3 == 0 {
+		rel := "zz_c16_out/mock_gen.go"
+		abs := filepath.Join(x.Case.Root(x.Dir), rel)
+		prior := n.Stdout
+		if x.Case.Hash()[1]%2 == 0 {
+			prior = bytes.ReplaceAll(out, []byte("\n"), []byte("\r\n"))
+		}
+		if os.MkdirAll(filepath.Dir(abs), 0o755) == nil && os.WriteFile(abs, prior, 0o644) == nil {
+			_, r := x.RunWith(func(cfg *core.Config) { cfg.Fmt = ""; cfg.Out = rel })
+			if r.Exit != 0 {
+				bad("out-file-canonical", "the default formatter with -out over an earlier differently laid out file fails: exit %d %s", r.Exit, r.StderrFirstLine())
+			} else if !bytes.Equal(r.OutBytes, out) {
+				bad("out-file-canonical", "-out over a file holding the same source in another layout leaves something else than the default output: %s", firstDiff(out, r.OutBytes))
+			}
+			_ = os.RemoveAll(filepath.Dir(abs))
+			x.Note("out_file_over_other_layout")
+		}
+	}
 	gi := run("goimports")
 	if gi.Exit != 0 {
 		bad("goimports-layout-only", "-fmt goimports fails (exit %d: %s) where the default formatter succeeds", gi.Exit, gi.StderrFirstLine())
